@@ -117,7 +117,7 @@ pub fn run(world: &World, ctx: &mut Ctx) -> Option<Value> {
         }
     }
     let pairs = super::pairs(world, &["getter"]);
-    let total = ctx.tier.pick(60_000u64, 1_200_000u64);
+    let total = ctx.tier.pick(150_000u64, 2_000_000u64);
     let n = super::per_pair(total, pairs.len(), 50, 40_000);
     ctx.ev.extra.insert("grammar_rule_pairs".into(), json!(pairs.len()));
     ctx.ev.extra.insert("cases_per_pair".into(), json!(n));
